@@ -347,6 +347,7 @@ func init() {
 			c.EntryAlignment("C09", s, "att")
 			c.RulerFastPath("C09")
 			c.RulerKeyAgreement("C09")
+			c.SignerRefusalReasons("C09")
 			c.ScatterPartition("C09")
 			c.RulerPositions("C09")
 			c.ScatterIndexDiscipline("C09")
